@@ -222,6 +222,11 @@ func c11History(k *fw.K, quick bool) {
 	if m.Variant == "saturated-tanh" {
 		for i := range w0.Data { // the features of a sample sum to 1 (see newBatch): z = w + b
 			w0.Data[i], b0.Data[i] = (19.5+4*r.Float64())*[]float64{1, -1}[r.Intn(2)], 0.4*r.Float64()
+			if r.Intn(3) == 0 {
+				// a unit far beyond the plateau's edge (|z| = 400..650: cosh^2 is beyond the range, the derivative is exactly 0 in every
+				// evaluation order): its parameters stay where they are, and the other units of the layer are not disturbed
+				w0.Data[i] = (400 + 250*r.Float64()) * []float64{1, -1}[r.Intn(2)]
+			}
 		}
 	}
 	if m.Variant == "non-finite-feature" {
